@@ -188,7 +188,9 @@ class ModuleSrc:
             elif isinstance(node, ast.ClassDef):
                 for sub in node.body:
                     if isinstance(sub, ast.FunctionDef):
-                        self.funcs.setdefault(f"{node.name}.{sub.name}", sub)
+                        if any(getattr(d, "id", None) == "overload" for d in sub.decorator_list):
+                            continue          # typing stubs: dropped (DESIGN 3.1)
+                        self.funcs[f"{node.name}.{sub.name}"] = sub
         self.mod = importlib.import_module(modname)
 
     @classmethod
@@ -900,6 +902,10 @@ class Executor:
             return V.itoa(st.ctx, v.t)
         if isinstance(v, VNone):
             return lit("None")
+        if isinstance(v, VConst) and isinstance(v.obj, (int, float, str)):
+            return lit(str(v.obj))
+        if isinstance(v, VBool) and v.conc() is not None:
+            return lit(str(v.conc()))
         return V.fresh_str(st.ctx, "str")
 
     def e_NamedExpr(self, e, st):
@@ -1083,6 +1089,14 @@ class Executor:
         return s.a[s.lo]
 
     def identical(self, l, r):
+        def pytype(x):
+            if isinstance(x, Prim):
+                return {"str": str, "int": int, "bool": bool, "tuple": tuple, "list": list, "type": type}.get(x.name)
+            return None
+        if pytype(l) is not None or pytype(r) is not None:
+            a = pytype(l) or (l.obj if isinstance(l, VConst) else None)
+            b = pytype(r) or (r.obj if isinstance(r, VConst) else None)
+            return z3.BoolVal(a is not None and a is b)
         if isinstance(l, VStr) and isinstance(r, VStr):
             return z3.BoolVal(l is r)
         if isinstance(l, VOpt) and isinstance(r, VNone):
@@ -1300,7 +1314,7 @@ class Executor:
                 k = pow2_factor(x)
                 if k > 0:
                     k = min(k, 62)
-                    if self.sol.check(z3.Not(z3.And(y >= 0, y < 2 ** k)), timeout_ms=1000) == z3.unsat:
+                    if self.sol.check(z3.Not(z3.And(y >= 0, y < 2 ** k)), timeout_ms=400) == z3.unsat:
                         return z3.simplify(x + y)
             w = 32
             r = fresh_int("bor")
@@ -1513,7 +1527,21 @@ class Executor:
     def e_Call(self, e, st):
         kwnames = [k.arg for k in e.keywords]
         if any(k is None for k in kwnames):
-            raise Unsupported("**kwargs call")
+            # f(..., **d) with d a dict built in this activation (possibly empty)
+            if sum(1 for k in kwnames if k is None) != 1 or kwnames[-1] is not None:
+                raise Unsupported("**kwargs call shape")
+            for vals, s2 in self.eval_list([e.func] + list(e.args) + [k.value for k in e.keywords], st):
+                if isinstance(vals, Raised):
+                    yield vals, s2
+                    continue
+                d = vals[-1]
+                if not isinstance(d, VDict):
+                    raise Unsupported("** of a non-dict")
+                nk = len(kwnames) - 1
+                kw = dict(zip(kwnames[:-1], vals[len(vals) - 1 - nk:len(vals) - 1]))
+                kw.update(d.d)
+                yield from self.call(s2, vals[0], vals[1:len(vals) - 1 - nk], kw, e)
+            return
         n = len(e.args)
         for vals, s2 in self.eval_list([e.func] + list(e.args) + [k.value for k in e.keywords], st):
             if isinstance(vals, Raised):
@@ -1582,8 +1610,11 @@ class Executor:
                 ckw = {k: self.unwrap(v) for k, v in kwargs.items()}
             except Unsupported:
                 raise Unsupported(f"call of native {obj!r} with symbolic arguments at {self.where(node)}")
-            if getattr(obj, "__module__", "") in ("builtins",) or isinstance(obj, type):
-                yield self.wrap(obj(*cargs, **ckw)), st
+            if getattr(obj, "__module__", "") in ("builtins", "math") or isinstance(obj, type):
+                try:
+                    yield self.wrap(obj(*cargs, **ckw)), st
+                except (TypeError, ValueError, OverflowError) as e:
+                    yield Raised(VExc(type(e))), st
                 return
             raise Unsupported(f"call of native {obj!r} at {self.where(node)}")
         raise Unsupported(f"call of {f!r} at {self.where(node)}")
@@ -1638,6 +1669,10 @@ class Executor:
             env[n] = v
         if a.vararg is not None:
             env[a.vararg.arg] = VTuple(pos[len(names):])
+        if a.kwarg is not None:
+            known = set(names) | {k.arg for k in a.kwonlyargs}
+            env[a.kwarg.arg] = VDict({k: v for k, v in kwargs.items() if k not in known}, fresh=True)
+            kwargs = {k: v for k, v in kwargs.items() if k in known}
         defaults = a.defaults
         dnames = names[len(names) - len(defaults):] if defaults else []
         for n, d in zip(dnames, defaults):
@@ -1761,7 +1796,13 @@ class Executor:
 
     def bind_params(self, f, args, names=None):
         a = f.node.args
-        if names is not None and a.kwonlyargs:
+        if names is not None and a.vararg is not None and a.vararg.arg in names:
+            # the contract names the *args tuple as one parameter: spread it
+            kw = dict(zip(names, args))
+            star = kw.pop(a.vararg.arg)
+            pos = [kw.pop(x.arg) for x in a.posonlyargs + a.args if x.arg in kw] + list(star.items)
+            env = self.bind_args(f.node, pos, kw, f.self_obj)
+        elif names is not None and a.kwonlyargs:
             # keyword-only parameters: bind the contract's parameters by name
             kw = dict(zip(names, args))
             pos = [kw.pop(x.arg) for x in a.posonlyargs + a.args if x.arg in kw]
